@@ -8,6 +8,7 @@
 mod input;
 mod oracle;
 mod bits;
+mod per;
 mod probes;
 mod versions;
 
@@ -36,6 +37,7 @@ pub fn run_case(input: &Input) -> Result<(), String> {
     let i = input.clone();
     let r = std::panic::catch_unwind(move || match i.case.as_str() {
         c if c.starts_with("bits_") => bits::run(&i),
+        c if c.starts_with("per_") => per::run(&i),
         other => Err(format!("unknown case {other}")),
     });
     match r {
@@ -54,7 +56,9 @@ pub fn run_case(input: &Input) -> Result<(), String> {
 }
 
 fn main() {
-    std::panic::set_hook(Box::new(|_| {}));
+    if std::env::var_os("VERIF_PANIC_MSG").is_none() {
+        std::panic::set_hook(Box::new(|_| {}));
+    }
     let args: Vec<String> = std::env::args().collect();
     if args.len() < 3 {
         eprintln!("usage: replay search <group> <seed> <budget> | replay <json> | probe <name>");
@@ -79,6 +83,7 @@ fn main() {
                 };
                 match args[2].as_str() {
                     "bits" => bits::search(&mut rng, budget, &mut try_one),
+                    "per" => per::search(&mut rng, budget / 4, &mut try_one),
                     g => {
                         eprintln!("unknown group {g}");
                         std::process::exit(2);
